@@ -10,7 +10,7 @@ SPEC = dict(
          "lost after the stream restart, answer (result/error) to the manager's own roster request from {server, own bare, own "
          "full, others}, roster IQ set/get/result/error from {server, own bare, own full, stranger, look-alikes of the own JID}, "
          "presence available/unavailable/other from several resources}: every session-legal sequence of exactly depth 5 (quick) "
-         "or 6 (thorough) over a 16-symbol roster alphabet and a 12-symbol presence alphabet, a corpus of minimized histories, "
+         "or 6 (thorough) over a 16-symbol roster alphabet and of depth 6 / 7 over a 12-symbol presence alphabet, a corpus of minimized histories, "
          "plus seeded random histories of length 5..50 with random item lists. The real QXmppRosterManager runs behind the real "
          "QXmppClient/QXmppOutgoingClient (IQ tracking, stanza dispatch, SM flags; only the socket is absent). Every line compares "
          "signals emitted, IQs sent (roster get by order, result/error by id), isRosterReceived, the sorted contact list with "
@@ -40,7 +40,7 @@ SPEC = dict(
                "resumption; session-level exactness as a partial theorem plus two defect theorems with a machine-checked witness. Model tied "
                "to the real manager+client by exhaustive and random correspondence; the property is also evaluated directly on the "
                "implementation by a reference fold over the history.",
-    level_note="Proved about the hand-written model; the model-to-code tie is differential (exhaustive to depth 5/6 over compact alphabets, "
+    level_note="Proved about the hand-written model; the model-to-code tie is differential (exhaustive to depth 5/6 (roster) and 6/7 (presence) over compact alphabets, "
                "sampled to length 50). Session-level reading holds only partially on today's code (two recorded findings).",
     design_ref="5.12",
     technique="Lean 4 refinement proof (incremental cache = declarative fold over the event history) + invariants + model/implementation correspondence",
